@@ -8,6 +8,15 @@ open Ckl
 
 variable {E : List String} {b : Bool}
 
+theorem Pres.dateResM (r : DateRes) (pos : Pos) : Pres E b (dateResM r pos) := by
+  unfold Ckl.dateResM; pa_auto
+macro_rules | `(tactic| pa_lemma) => `(tactic| with_reducible exact Pres.dateResM _ _)
+
+theorem Pres.callDate (name : String) (args : List (String × RVal)) (pos : Pos) (m : EvalM RVal)
+    (h : callDate name args pos = some m) : Pres E b m := by
+  unfold Ckl.callDate at h
+  split at h <;> first | (injection h with h; subst h; exact Pres.dateResM _ _) | (cases h)
+
 theorem Pres.nativeAdd (x y : RVal) (pos : Pos) (hx : Cl.cl E x) (hy : Cl.cl E y) :
     Pres E b (nativeAdd x y pos) := by
   unfold Ckl.nativeAdd; pa_auto
